@@ -372,6 +372,10 @@ impl OutstationSession {
         writer: &mut TransportWriter,
         database: &mut DatabaseHandle,
     ) -> RunError {
+        // nothing from a previous communication session may carry over, even if that
+        // session's future was dropped instead of running to completion
+        self.state.reset();
+
         loop {
             if let Err(err) = self.run_idle_state(io, reader, writer, database).await {
                 self.state.reset();
